@@ -7,6 +7,7 @@
   (data access and identification) they write the same bytes and leave the same datastore.
 -/
 import Pymodbus.Props.C12
+import Pymodbus.Generated.Tables
 namespace Pymodbus.Props.C17
 open Pymodbus Pymodbus.Server Pymodbus.Framer
 
@@ -326,5 +327,19 @@ example : Sim ⟨ServerCtx.mkSingle ⟨[.seq ⟨0, [1]⟩], 0, 0, 0, 0, true⟩,
   ⟨rfl, rfl, rfl, rfl⟩
 example : supported (.readHolding 0 1) = true ∧ supported .reportSlaveId = true ∧ supported (.diag 11 (.int 0)) = false := by
   decide
+
+
+/-- tie to the source: the structure of the seven front-ends as read off the source files on this run (by ast: which
+    receive methods append unit 0 when broadcast is enabled, what each catch-all does with an exception out of the
+    receive call, who counts sent messages, who is gated by listen-only mode, that sending is gated by
+    `should_respond` and that `execute` copies transaction id and unit id to the response) is the one the model encodes -/
+theorem generated_server_structure :
+    Generated.serverStructure = allFrontends.map (fun f =>
+      (f.name, addsBroadcastUnit f, f.onErrorSrc, isTwisted f, isTwisted f, true, true)) := by rfl
+
+/-- the source's "close" reactions are the model's connection-closing front-ends (sync UDP excepted: a new handler
+    per datagram), its "reset" reactions the ones that go on with an empty framer -/
+theorem onError_reaction : ∀ f ∈ allFrontends,
+    (reaction f = 0 ↔ (f.onErrorSrc = "close" ∧ f ≠ .syncUdp)) ∧ (reaction f = 1 ↔ f.onErrorSrc = "reset") := by decide
 
 end Pymodbus.Props.C17
